@@ -326,6 +326,28 @@ def run_r2(ctx, rule, tn):
                 rule.bad("%s/%s/#%d" % (nid, op, o), what + " - " + why, f.loc(bi))
             else:
                 rule.ok(what, f.loc(bi), "%s: %s" % (cls, why))
+    # integer methods of std that trap exactly like the operators (they inherit the caller's overflow checks):
+    # they are calls, not MIR assertions, so they are enumerated by name
+    trapping = ("abs", "pow", "next_power_of_two", "div_euclid", "rem_euclid", "isqrt", "ilog", "ilog2", "ilog10", "next_multiple_of", "neg", "abs_sub")
+    n_m = 0
+    for fid, f in sorted(facts.fns.items()):
+        if not in_scope(f):
+            continue
+        sy = sym(f)
+        om = {}
+        for bb, t in f.calls():
+            cn = util.cname(t)
+            m = cn.rsplit("::", 1)[-1]
+            if not (cn.startswith("core::num::") and m in trapping and "nonzero" not in cn and "wrapping" not in cn):
+                continue
+            n_m += 1
+            nid = norm(fid)
+            o = om.get(m, 0)
+            om[m] = o + 1
+            args = [sy.operand(a) for a in t["args"]]
+            tainted = any(tn.tainted(f, a) for a in args)
+            rule.check(not tainted, "%s/%s()/#%d" % (nid, m, o), "%s() in %s on %s: the method overflows like the operator it stands for (e.g. abs / neg of the most negative value) and its operand %s" % (m, short(nid), " , ".join(sy.show(a)[:50] for a in args), "is a number the input declares" if tainted else "does not come from the input"), f.loc(bb))
+    rule.note("trapping_method_sites", n_m)
     rule.note("sites_by_class", counts)
     rule.note("tainted_sites", n_t)
     # (without overflow checks the compiler emits no overflow assertions: the floor is the debug-config count)
